@@ -51,8 +51,8 @@ func TestC13_GenDiff(t *testing.T) {
 	if err != nil {
 		t.Fatal(err)
 	}
-	nsys := evid.Scale(8, 320)
-	perPkgQuick, perPkgThorough := 1500, 12000
+	nsys := evid.Scale(8, 80) // ×VERIF_THOROUGH_X = 320 packages
+	perPkgQuick, perPkgThorough := 1500, 3000 // base budgets: ×5 quick, ×4 thorough
 	var specs []tschema.Schema
 	if evid.Shard() == 0 {
 		for _, f := range c13Fixed {
